@@ -16,7 +16,8 @@ OPS4 = ["==", "!=", "in", "not in"]
 OPS8 = OPS4 + [">", ">=", "<", "<=", "contains", "not contains"]
 OPS_TABLE = OPS4 + ["contains", "not contains", "<"]
 # closed under: equal, substring, superstring, disjoint, empty string
-POOL_QUICK = ["", "a", "b", "ab", "abc", "bc", "linux", "lin", "linux darwin", "darwin", "win32", "x"]
+# ... and number-like strings that differ as strings but not as numbers / versions (seed C19f: ==/!= compared numerically)
+POOL_QUICK = ["", "a", "b", "ab", "abc", "bc", "linux", "lin", "linux darwin", "darwin", "win32", "x", "3.8", "3.08", "10", "010"]
 POOL_EXTRA = ["nux", "linux2", "Linux", " ", "a b", "b a", "cpython", "python", "py", "cp", "1.0", "1.0.0"]
 
 
